@@ -336,7 +336,8 @@ pub fn run(out: &mut Out, tier: &str, rng: &mut Rng) {
     let n = if tier == "thorough" { 30000 } else { 2500 };
     for i in 0..n {
         let depth = 2 + rng.below(5);
-        let r = rty::random(rng, depth);
+        // every third type takes its named leaves from a pool with non-ASCII identifiers (byte offset != char offset)
+        let r = if i % 3 == 1 { rty::random_named(rng, depth, &["User", "Mode", "Währung", "Schlüssel", "設定", "Ünit", "Größe"]) } else { rty::random(rng, depth) };
         let j = r.to_json();
         let site = SITES[rng.below(SITES.len())];
         let mode = if rng.chance(1, 3) { "zod" } else { "ts" };
@@ -380,8 +381,10 @@ pub fn run_mappings(out: &mut Out, tier: &str, rng: &mut Rng) {
         json!({"DateTime<Utc>": "string", "Flag": "boolean"}),
         // keys headed by a smart pointer / a wrapper the tool otherwise looks through
         json!({"Box<RawValue>": "string", "Arc<Session>": "number", "Rc<Node>": "string", "Cow<'static, str>": "string"}),
+        // generic keys whose head merely *ends* in the name of a wrapper the tool unwraps
+        json!({"QueryResult<Row>": "number", "MyOption<Row>": "string", "SmallVec<Row>": "string", "IndexMap<Row>": "string"}),
     ];
-    let mapped_names = ["PathBuf", "Uuid", "Timestamp", "DateTime<Utc>", "Flag", "User", "Box<RawValue>", "Arc<Session>", "Rc<Node>"];
+    let mapped_names = ["PathBuf", "Uuid", "Timestamp", "DateTime<Utc>", "Flag", "User", "Box<RawValue>", "Arc<Session>", "Rc<Node>", "QueryResult<Row>", "MyOption<Row>", "SmallVec<Row>"];
     let mut kk = 0usize;
     for name in mapped_names {
         let n = RTy::Named(name.to_string());
